@@ -945,6 +945,10 @@ class PathStorage(OutputBase):
         traj_dir = os.path.join(archive_path, "accepted")
         # Create the needed directories:
         make_dirs(traj_dir)
+        # Files left by an interrupted attempt to store this path number
+        # do not belong to the path:
+        for leftover in os.listdir(traj_dir):
+            os.remove(os.path.join(traj_dir, leftover))
         # Write order, energy and traj files to the archive:
         _ = self.output_path_files(step, [path, "ACC"], archive_path)
         path = self._move_path(path, traj_dir, self.keep_traj_fnames)
